@@ -318,7 +318,9 @@ def history_case(rng, scratch, ci):
     from svgpathtools import Document, svg2paths, SaxDocument, parse_path
     kind, doc, fin = initial_doc(rng, scratch, ci)
     root0 = xel_of(doc.tree.getroot())
-    case = {'initial': kind, 'initial_tree': root0, 'ops': [], 'steps': [], 'invisible_after_add': []}
+    case = {'initial': kind, 'initial_tree': root0, 'ops': [], 'steps': [], 'invisible_after_add': [],
+            'stale_d': [], 'attr_changed': []}
+    added = {}
     ops_coq = []
     nadd = 0
     for step in range(rng.randint(1, 6)):
@@ -333,21 +335,42 @@ def history_case(rng, scratch, ci):
             return el
         if opk.startswith('path'):
             nadd += 1
-            d = simple_d(rng)
-            at = rng.choice([None, {'id': 'n%d' % nadd}, {'id': 'n%d' % nadd, 'stroke': 'red'}])
+            d_in = simple_d(rng)
+            # first argument: a Path object or a d-string; the path that must come back is its d()
+            as_path = rng.random() < 0.5
+            arg = parse_path(d_in) if as_path else d_in
+            d = arg.d() if as_path else d_in
+            # attribute dicts: None, without 'd', and (the typical svg2paths -> edit -> add_path history)
+            # with a 'd' entry that differs from the path being added: the path itself supersedes it
+            stale = simple_d(rng)
+            while stale == d:
+                stale = simple_d(rng)
+            at = rng.choice([None, {}, {'id': 'n%d' % nadd}, {'id': 'n%d' % nadd, 'stroke': 'red'},
+                             {'d': stale, 'id': 'n%d' % nadd}, {'d': stale}, {'stroke': 'blue', 'd': stale, 'id': 'n%d' % nadd},
+                             {'d': d, 'id': 'n%d' % nadd}])
+            at_in = None if at is None else dict(at)
             atc = cdict(at or {})
+            kindtag = ('Path' if as_path else 'str') + ('+d' if at and 'd' in at else '')
             if opk == 'path-root':
-                new = doc.add_path(parse_path(d) if rng.random() < 0.5 else d, at)
-                d = new.get('d')
-                case['ops'].append(['add_path', d, at, None]); ops_coq.append('(OpAddPath %s %s (@nil nat))' % (cs(d), atc))
+                new = doc.add_path(arg, at)
+                case['ops'].append(['add_path', d, at_in, None, kindtag]); ops_coq.append('(OpAddPath %s %s (@nil nat))' % (cs(d), atc))
             elif opk == 'path-elem':
                 p = rng.choice(gpos if rng.random() < 0.85 else [q for q, _ in allpos])
-                new = doc.add_path(d, at, group=elem_at(p))
-                case['ops'].append(['add_path', d, at, list(p)]); ops_coq.append('(OpAddPath %s %s %s)' % (cs(d), atc, pos_coq(p)))
+                new = doc.add_path(arg, at, group=elem_at(p))
+                case['ops'].append(['add_path', d, at_in, list(p), kindtag]); ops_coq.append('(OpAddPath %s %s %s)' % (cs(d), atc, pos_coq(p)))
             else:
                 names = [rng.choice(['A', 'B', 'C', 'N']) for _ in range(rng.randint(1, 3))]
-                new = doc.add_path(d, at, group=list(names))
-                case['ops'].append(['add_path', d, at, names]); ops_coq.append('(OpAddPathNamed %s %s %s)' % (cs(d), atc, clstr(names)))
+                new = doc.add_path(arg, at, group=list(names))
+                case['ops'].append(['add_path', d, at_in, names, kindtag]); ops_coq.append('(OpAddPathNamed %s %s %s)' % (cs(d), atc, clstr(names)))
+            added[id(new)] = (new, d)
+            if new.get('d') != d:
+                case['stale_d'].append({'step': step, 'expected_d': d, 'element_d': new.get('d'), 'attribs': at_in,
+                                        'first_argument': 'Path' if as_path else 'd-string'})
+            if at_in is not None and at != at_in:
+                case['attr_changed'].append({'step': step, 'what': 'the caller\'s attribute dict was modified', 'attribs': at_in})
+            bad = {k: (v, new.get(k)) for k, v in (at_in or {}).items() if k != 'd' and new.get(k) != v}
+            if bad:
+                case['attr_changed'].append({'step': step, 'what': 'supplied attributes changed', 'changed': bad})
             vis = any(p.element is new for p in doc.paths())
             # the property speaks of paths added to the document's groups: the parent must be the root
             # or a g reached from it through g elements (whatever their namespace)
@@ -380,15 +403,19 @@ def history_case(rng, scratch, ci):
     for f in (fin, fout):
         if f and os.path.exists(f):
             os.remove(f)
-    all_d = [x['attrs'].get('d', '') for _, x in positions(final) if x['local'] == 'path']
-    case['all_path_d'] = all_d
-    def reach_d(x):
-        out = [c['attrs'].get('d', '') for c in x['kids'] if c['local'] == 'path']
-        for c in x['kids']:
-            if c['local'] == 'g':
+    # the paths the document holds: for an added element the path that was ADDED (not what the
+    # element's d attribute happens to say), for the others their d attribute
+    loc = lambda e: str(e.tag).split('}')[-1]
+    want_d = lambda e: added[id(e)][1] if id(e) in added else e.get('d', '')
+    rt = doc.tree.getroot()
+    case['all_path_d'] = [want_d(e) for e in rt.iter() if loc(e) == 'path']
+    def reach_d(e):
+        out = [want_d(c) for c in list(e) if loc(c) == 'path']
+        for c in list(e):
+            if loc(c) == 'g':
                 out += reach_d(c)
         return out
-    case['reachable_path_d'] = reach_d(final)
+    case['reachable_path_d'] = reach_d(rt)
     term = None
     strs = [case['saved_text']]
     if 'ok' in r1 and all(coqable(s) for s in strs):
@@ -401,6 +428,13 @@ def history_case(rng, scratch, ci):
 
 def eval_history(rep, case):
     base = {'kind': 'history', 'initial': case['initial'], 'ops': case['ops'], 'saved_text': case['saved_text'][:1500]}
+    if case['stale_d']:
+        rep.violation('C18: the element created by Document.add_path does not carry the path that was added: a \'d\' entry '
+                      'of the attribute dict supersedes it (%s)' % case['stale_d'][0],
+                      dict(base, stale=case['stale_d']), key='doc-add-path-d-overridden-by-attribs')
+    if case['attr_changed']:
+        rep.violation('C18: Document.add_path changes the supplied attributes: %s' % case['attr_changed'][0],
+                      dict(base, changed=case['attr_changed']), key='doc-add-path-attribute-changed')
     if case['invisible_after_add']:
         rep.violation('C18: a path added with Document.add_path is not returned by that Document\'s paths() '
                       '(steps %s)' % case['invisible_after_add'],
@@ -418,7 +452,8 @@ def eval_history(rep, case):
             rep.violation('C18: %s reads back %d of the %d paths of a file saved by Document'
                           % (rd, len(got), len(want)),
                           dict(base, reader=rd, missing=missing, got=r['ok']),
-                          key={'document': 'doc-saved-added-path-unreadable-by-document',
+                          key=('doc-saved-path-differs-from-added-%s' % rd) if (case['stale_d'] and len(got) == len(want)) else
+                              {'document': 'doc-saved-added-path-unreadable-by-document',
                                'sax': 'doc-saved-added-path-unreadable-by-sax',
                                'svg2paths': 'doc-save-svg-prefix-unreadable-by-svg2paths'}[rd])
 
@@ -545,6 +580,8 @@ def run(rep, tier, seed, replay=None):
                     stats['initial'][case['initial']] = stats['initial'].get(case['initial'], 0) + 1
                     for o in case['ops']:
                         k = o[0] + ('-names' if o[0] == 'add_path' and isinstance(o[3], list) and o[3] and isinstance(o[3][0], str) else '')
+                        if o[0] == 'add_path':
+                            k += ':' + o[4]
                         stats['ops'][k] = stats['ops'].get(k, 0) + 1
                     nv = len(rep.violations); kc0 = keycount_total(keycount)
                     eval_history(rep, case)
